@@ -111,6 +111,51 @@ def check(st):
     return v
 
 
+def check_batches(chk, acc_states, quick):
+    """Two assessment points in one DamageCalculatorPRAM: point B carries the hystereses of point A at half the damage parameter
+    (every N exponent + 2, itself a state of the model).  Each point must get the lifetime the model gives it alone, in both point orders."""
+    import pylife.strength.woehler_fkm_nonlinear  # noqa
+    from fractions import Fraction
+    from pylife.strength.fkm_nonlinear.damage_calculator import DamageCalculatorPRAM
+    pairs = []
+    for rows in sorted(acc_states):
+        shifted = tuple((e + 2, c, r) for e, c, r in rows)
+        if shifted in acc_states and all(e <= -4 for e, c, r in rows):
+            pairs.append((rows, shifted))
+    step = max(1, len(pairs) // (150 if quick else 1500))
+    n = 0
+    wc = pd.Series({'P_RAM_Z': Z, 'P_RAM_D': Z / 2.0 ** 20, 'd_1': -0.5, 'd_2': -1.0}).woehler_P_RAM
+    with warnings.catch_warnings():
+        warnings.simplefilter('ignore')
+        for rows_a, rows_b in pairs[::step]:
+            for order in ((rows_a, rows_b), (rows_b, rows_a)):
+                n += 1
+                recs = []
+                for hi in range(len(rows_a)):
+                    for pi, rows in enumerate(order):
+                        e, c, r = rows[hi]
+                        recs.append({'hysteresis_index': hi, 'assessment_point_index': pi, 'P_RAM': Z * 2.0 ** (-e // 2) if e <= 0 else Z * 2.0 ** (-e),
+                                     'is_closed_hysteresis': c, 'run_index': r, 'S_min': 0.0})
+                coll = pd.DataFrame(recs).set_index(['hysteresis_index', 'assessment_point_index'])
+                case = {'points_rows_Nexp_closed_run': [list(map(list, rows)) for rows in order]}
+                try:
+                    dc = DamageCalculatorPRAM(coll, wc)
+                    times = np.atleast_1d(np.asarray(dc.lifetime_n_times_load_sequence, dtype=np.float64))
+                    cyc = np.atleast_1d(np.asarray(dc.lifetime_n_cycles, dtype=np.float64))
+                    for pi, rows in enumerate(order):
+                        o = acc_states[rows]
+                        wt, wcy = float(Fraction(*o['times'])), float(Fraction(*o['cycles']))
+                        if not (close(times[pi], wt, 1e-10) and close(cyc[pi], wcy, 1e-10)):
+                            chk.violation('P_RAM lifetime of a point assessed together with another point differs from its literal accumulation', {**case, 'point': pi}, [wt, wcy], [float(times[pi]), float(cyc[pi])], part='accumulate_batch')
+                            break
+                    else:
+                        chk.nontrivial(('acc_batch', order[0], order[1]))
+                except Exception as ex:
+                    chk.violation('DamageCalculatorPRAM raised %r for two assessment points' % ex, case, part='accumulate_batch')
+    chk.part('accumulate_batch', batches=n, candidate_pairs=len(pairs))
+    return n
+
+
 def run(chk):
     quick = chk.tier == 'quick'
     cfgname = 'MC_FKMNL_quick.cfg' if quick else 'MC_FKMNL_thorough.cfg'
@@ -120,9 +165,12 @@ def run(chk):
         chk.machinery.append('model invariant %s violated: %s' % (res.violated, res.trace[-1:]))
     n = 0
     seen = set()
+    acc_states = {}
     if res.dump_path and os.path.exists(res.dump_path):
         for st in parse_dump(res.dump_path):
             n += 1
+            if st['part'] == 'accumulate':
+                acc_states[tuple(tuple(r) for r in st['inp']['rows'])] = st['out']
             for what, case, exp, got in check(st)[:2]:
                 chk.violation(what, case, exp, got, part=st['part'])
             if st['part'] == 'accumulate' and not st['out']['early'] and any(not r[1] for r in st['inp']['rows']):
@@ -133,6 +181,7 @@ def run(chk):
                 seen.add(st['part'])
                 chk.sample({'part': st['part'], 'input': st['inp'], 'model_output': st['out']}, cap=6)
         os.remove(res.dump_path)
+        n += check_batches(chk, acc_states, quick)
     chk.evals(n)
     chk.cov['traces_validated_against_impl'] = n
     # compute_beta: not a model-checking result (real function); reported separately
